@@ -23,13 +23,14 @@ from symx.vloop import CycleBudget, Deadlock, VLoop
 NAME = "c18_sock"
 STUBS = LOOP_STUBS + [
     "TCP: stub asyncio.Transport (write/write_eof/close/abort/is_closing/pause_reading/resume_reading/set_write_buffer_limits) honouring the transport contract; "
-    "close()/abort() schedule connection_lost(None) once with call_soon",
+    "close()/abort() schedule connection_lost(None) once with call_soon; close() with unread inbound data in the stub's kernel buffer and no preceding write_eof() "
+    "is recorded as 'the peer sees a reset' (Linux TCP semantics), otherwise 'the peer sees end-of-stream'",
     "UNIX: stub non-blocking socket (recv/send/close/fileno/shutdown) + VLoop.add_reader/add_writer/remove_reader/remove_writer recording the callbacks, fired by the environment",
 ]
 ASSUMPTIONS = ["peer byte stream = 0,1,2,... so that order / loss / duplication are visible; chunk lengths 1..3, max_bytes in [1,3] symbolic"]
 OUTSIDE = ["real kernel buffer behaviour, TCP loopback, 'several socket buffers' worth of data", "uvloop transports", "receive_fds/send_fds, datagram sockets", "trio"]
 MUST_REACH = ["tcp:chunk-split-on-max_bytes", "tcp:eof-after-data", "tcp:data-arrived-before-first-receive", "tcp:send-waited-for-write-gate", "tcp:closed-while-receiving", "tcp:busy-rejected",
-              "unix:partial-recv", "unix:partial-send", "unix:eof", "unix:closed-while-receiving"]
+              "unix:partial-recv", "unix:partial-send", "unix:eof", "unix:closed-while-receiving", "unix:busy-rejected", "tcp:closed-with-unread-inbound-data"]
 
 
 class FakeTransport(asyncio.Transport):
@@ -106,6 +107,10 @@ class FakeTransport(asyncio.Transport):
     def close(self):
         if not self.closing:
             self.closing = True
+            # what the peer will observe (Linux TCP): closing a socket that still holds unread inbound data sends a
+            # reset; the peer then gets ECONNRESET instead of a clean end-of-stream unless a FIN (write_eof) went out first
+            unread = any(k == "data" for (k, _d) in self.pending_in)
+            self.peer_sees = "eof" if (self.eof_written or not unread) else "reset"
             self.loop.call_soon(self._lost, None)
 
     def abort(self):
@@ -143,7 +148,7 @@ def tcp(sym, cov, mode, eager=False, T=1, N=4, busy=False):
         sym.assume(t1 <= t2)
         sym.assume(t2 <= te)
         mb = sym.int("mb", 1, 3)
-        rd = sym.int("rd", 0, T) if mode == "recv" else 0  # reader delay between receives
+        rd = sym.int("rd", 0, T)  # reader delay between receives
         fd = sym.int("fd", 0, T + 1) if (mode == "recv" and not busy) else 0  # delay before the first receive
         total = l1 + l2
     if mode == "send":
@@ -300,6 +305,10 @@ def tcp(sym, cov, mode, eager=False, T=1, N=4, busy=False):
         else:
             chk(out.get("end") in ("closed", "eof"), "receive-after-close-wrong-ending", out.get("end"))
             cov.hit("tcp:closed-while-receiving", out.get("end") == "closed")
+            tr_ = out["tr"]
+            if getattr(tr_, "peer_sees", None) is not None:
+                chk(tr_.peer_sees == "eof", "peer-sees-reset-instead-of-end-of-stream-after-close", {"eof_written": tr_.eof_written})
+                cov.hit("tcp:closed-with-unread-inbound-data", any(k == "data" for (k, _d) in tr_.pending_in))
         if busy:
             cov.hit("tcp:busy-rejected", out.get("second") == "busy")
             chk(out.get("second") in ("busy", "not-busy-anymore"), "second-reader-accepted-concurrently", out.get("second"))
@@ -403,6 +412,8 @@ def unix(sym, cov, mode, eager=False, T=1):
     l1 = sym.int("l1", 1, 4)
     if mode == "close":
         xt = sym.int("xt", 0, T + 2)
+    if mode == "send-busy":
+        sd = sym.int("sd", 0, 4)
 
     def fire_readable():
         ent = readers.get(id(sock))
@@ -445,9 +456,23 @@ def unix(sym, cov, mode, eager=False, T=1):
 
         async def writer():
             payload = bytes(range(20, 24))
+            out["first_started"] = True
             await stream.send(payload)
-            out["sent_all"] = sock.sent == payload
+            out["first_returned"] = True
+            out["sent_all"] = sock.sent == payload or mode == "send-busy"
             out["sent"] = sock.sent
+
+        async def second_writer():
+            for _ in range(4):
+                if _ < sd:
+                    await anyio.sleep(0)
+            out["first_in_progress_at_second_start"] = out.get("first_started") and not out.get("first_returned")
+            try:
+                await stream.send(bytes([30, 31]))
+                out["second"] = "accepted"
+                out["first_returned_when_second_returned"] = bool(out.get("first_returned"))
+            except BusyResourceError:
+                out["second"] = "busy"
 
         async def pump_writable():
             # the environment reports writability whenever a writer is registered
@@ -471,8 +496,10 @@ def unix(sym, cov, mode, eager=False, T=1):
         async with anyio.create_task_group() as tg:
             if mode in ("recv", "close"):
                 tg.start_soon(reader)
-            if mode == "send":
+            if mode in ("send", "send-busy"):
                 tg.start_soon(writer)
+                if mode == "send-busy":
+                    tg.start_soon(second_writer)
                 tg.start_soon(pump_writable)
             if mode == "close":
                 tg.start_soon(closer)
@@ -494,6 +521,18 @@ def unix(sym, cov, mode, eager=False, T=1):
         else:
             chk(out.get("end") == "closed", "receive-after-close-wrong-ending", out.get("end"))
             cov.hit("unix:closed-while-receiving")
+    elif mode == "send-busy":
+        p1, p2 = bytes(range(20, 24)), bytes([30, 31])
+        chk(out.get("first_returned"), "first-sender-never-finished")
+        if out.get("second") == "busy":
+            chk(sock.sent == p1, "bytes-written-differ-from-bytes-sent", {"sent": sock.sent.hex()})
+            cov.hit("unix:busy-rejected")
+        else:
+            # accepted: only legitimate if the two calls did not overlap; in any case the messages must not be interleaved
+            chk(sock.sent in (p1 + p2, p2 + p1), "concurrent-senders-interleaved-data", {"on_the_wire": sock.sent.hex()})
+            # (a second call that merely started while the first was still in its entry checkpoint, and went on after the
+            # first had finished, did not overlap with it)
+            chk(out.get("first_returned_when_second_returned"), "second-sender-accepted-concurrently", {"on_the_wire": sock.sent.hex()})
     else:
         chk(out.get("sent_all"), "bytes-written-differ-from-bytes-sent", {"sent": out.get("sent", b"").hex()})
 
@@ -509,6 +548,7 @@ def units(tier):
     us.append({"name": "tcp close", "fn": tcp, "params": {"mode": "close"}, "budget_s": B_})
     us.append({"name": "unix recv", "fn": unix, "params": {"mode": "recv"}, "budget_s": B_})
     us.append({"name": "unix send", "fn": unix, "params": {"mode": "send"}, "budget_s": B_})
+    us.append({"name": "unix send busy", "fn": unix, "params": {"mode": "send-busy"}, "budget_s": B_})
     us.append({"name": "unix close", "fn": unix, "params": {"mode": "close"}, "budget_s": B_})
     if not quick:
         us.append({"name": "tcp recv T=2", "fn": tcp, "params": {"mode": "recv", "T": 2}, "budget_s": B_})
